@@ -776,7 +776,15 @@ fn trim_pixmap(
 
     let limit = tiny_skia::IntRect::from_xywh(0, 0, pixmap.width(), pixmap.height()).unwrap();
 
-    let content_area = content_area.transform(transform)?.to_int_rect();
+    // All pixels the drawing touches: `to_int_rect` would place the right and bottom edges
+    // relative to the rounded-down origin and cut a partly covered column or row.
+    let content_area = content_area.transform(transform)?;
+    let content_area = tiny_skia::IntRect::from_ltrb(
+        content_area.left().floor() as i32,
+        content_area.top().floor() as i32,
+        content_area.right().ceil() as i32,
+        content_area.bottom().ceil() as i32,
+    )?;
     // Nothing to trim to when the whole drawing is outside of the page.
     let content_area = fit_to_rect(content_area, limit)?;
     let content_area = tiny_skia::IntRect::from_xywh(
